@@ -27,6 +27,55 @@ Theorem C14_no_retry : forall p m vs kv d V,
 Proof. exact no_retry. Qed.
 Print Assumptions C14_no_retry.
 
+(* C14_lossless (full statement, kept for reference — it is FALSE on the faithful model, see the
+   C14_refuted_* witnesses below):
+     forall d vs k j, conforms (nth k vs TNone) j = true -> lossless (TUnion d vs) j.
+   What holds: the full conclusion (decode succeeds and the re-encoding carries every key/value of
+   the payload) for EVERY type and payload — unions nested in lists, maps, fields, Optional, other
+   unions, with or without discriminator — under the executable, hereditary guard [safe], which at
+   each union node demands that the first variant of the tried category whose SHAPE may accept the
+   payload (all required keys present / primitive or container kind coercible) is a variant the
+   payload safely conforms to, that a mapped discriminator value leads to such a variant, and that
+   a dict payload meant for a typed map is not pre-empted by dataclass variants. *)
+Theorem C14_lossless_partial : forall t j, safe t j = true -> lossless t j.
+Proof. exact safe_lossless. Qed.
+Print Assumptions C14_lossless_partial.
+
+(* the guard in the "separated" form of the design: an object payload of the dataclass variant at
+   position k is decoded losslessly when every earlier dataclass variant lacks one of its required
+   keys in the payload ... *)
+Theorem C14_lossless_separated_obj : forall vs k n fs kv,
+  nth_error vs k = Some (TObj n fs) ->
+  safe (TObj n fs) (JObj kv) = true ->
+  (forall i n' fs', (i < k)%nat -> nth_error vs i = Some (TObj n' fs') -> required_present fs' kv = false) ->
+  lossless (TUnion None vs) (JObj kv).
+Proof. exact lossless_separated_obj. Qed.
+Print Assumptions C14_lossless_separated_obj.
+
+(* ... a scalar / array payload of the variant at position k when no earlier non-dataclass variant
+   can coerce that kind of payload ... *)
+Theorem C14_lossless_separated_other : forall vs k v j,
+  j <> JNull -> (forall kv, j <> JObj kv) ->
+  nth_error vs k = Some v -> is_other v = true -> safe v j = true ->
+  (forall i w, (i < k)%nat -> nth_error vs i = Some w -> is_other w = true -> may_accept w j = false) ->
+  lossless (TUnion None vs) j.
+Proof. exact lossless_separated_other. Qed.
+Print Assumptions C14_lossless_separated_other.
+
+(* ... and with a mapping, the payload of the variant its discriminator value names — in any
+   variant order and whatever the other variants are. *)
+Theorem C14_lossless_mapped : forall p m vs kv d V,
+  NoDup (map fst m) -> In (d, V) m -> alookup p kv = Some (JStr d) ->
+  safe V (JObj kv) = true ->
+  lossless (TUnion (Some (p, m)) vs) (JObj kv).
+Proof. exact lossless_mapped. Qed.
+Print Assumptions C14_lossless_mapped.
+
+Theorem C14_guard_nonvacuous :
+  exists t j, safe t j = true /\ (exists d vs, t = TUnion d vs /\ (length vs >= 4)%nat) /\ j <> JNull.
+Proof. exact guard_nonvacuous. Qed.
+Print Assumptions C14_guard_nonvacuous.
+
 Theorem C14_refuted_F14a :
   conforms (nth 1 [tA; tB] TNone) j_F14a = true /\ safe u_F14a j_F14a = false /\
   structure u_F14a j_F14a = Ok (VObj [65] [(k_x, VInt 1%Z)]) /\ ~ lossless u_F14a j_F14a.
